@@ -174,6 +174,9 @@ func schedDescribe(sch *vrt.Sched) string {
 func schedEnum(scens []*scenario, bound func(c *mc.Ctx, scen int) int) func(c *mc.Ctx, yield func(schedSpec)) {
 	return func(c *mc.Ctx, yield func(schedSpec)) {
 		for si, sc := range scens {
+			if c.Expired() {
+				break // wall-clock guard: the remaining scenarios are not started (reported as exhaustive:false)
+			}
 			b := bound(c, si)
 			// discovery pre-pass (identical in every shard process): the default schedule and all its
 			// one-deviation neighbours are executed until the conflict set stops growing
